@@ -3,7 +3,7 @@
 Protocol: notes/io-protocol.md.  Message values come from gen_init; canonical streams come from the
 model's own emplacement (stage 1), so valid streams need no Python encoder."""
 import random
-from shapes import has_default, align, min_size, wide_len, ssize as ssize_of
+from shapes import has_default, align, min_size, wide_len, ssize as ssize_of, INTS
 from cases import gen_init, garbage, hexs, parse_kv
 
 IOKINDS = ['Interrupted', 'WouldBlock', 'Other', 'UnexpectedEof', 'BrokenPipe', 'TimedOut']
@@ -77,6 +77,19 @@ def has_str(t):
     return False
 
 
+def has(t, pred):
+    """some type inside t (t included) satisfies pred"""
+    if pred(t):
+        return True
+    if t[0] in ('vec', 'flex', 'arr'):
+        return has(t[1], pred)
+    if t[0] == 'struct':
+        return any(has(f, pred) for f in t[2])
+    if t[0] == 'enum':
+        return any(has(f, pred) for v in t[4] for f in v)
+    return False
+
+
 def compositions(rng, n, k):
     """k random chunk sizes >= 1 (the pipe clips them)"""
     return [rng.choice([1, 1, 2, 3, 5, 8, 13, 64]) for _ in range(k)]
@@ -87,7 +100,7 @@ def stage1(shapes, seed, tier='quick'):
     rng = random.Random(seed * 3571 + 11)
     lines, meta = [], {}
     ms = message_shapes(shapes)
-    nshapes = 14 if tier == 'quick' else 60
+    nshapes = 22 if tier == 'quick' else 60
     # the fixed shapes come first in the corpus: prefer them, then random ones
     pick = ms[:70]
     rng.shuffle(pick)
@@ -102,6 +115,13 @@ def stage1(shapes, seed, tier='quick'):
            [(sid, t) for sid, t in ms if padded_tail(t) and t[0] == 'struct'][:2] + \
            [(sid, t) for sid, t in ms if unaligned_tail(t)][:2] + \
            [(sid, t) for sid, t in ms if has_str(t) and t[0] != 'str'][:2] + [(sid, t) for sid, t in ms if t[0] == 'str' and align(t) > 1][:1] + [(sid, t) for sid, t in ms if t[0] == 'vec' and align(t) > ssize_of(t[1]) > 0][:1]
+    # ... an enum tag wider than one byte, a bare FlexVec whose offset type is more aligned than its items (the vector
+    # ends in padding), a 64-bit portable length type, and a sized struct (max_msg_len below MIN_SIZE)
+    prio += [(sid, t) for sid, t in ms if has(t, lambda x: x[0] == 'enum' and INTS[x[2]][0] > 1) and not is_sized(t)][:1] + \
+            [(sid, t) for sid, t in ms if has(t, lambda x: x[0] in ('enum', 'clike') and INTS[x[2] if x[0] == 'enum' else x[1]][0] > 1) and is_sized(t)][:1] + \
+            [(sid, t) for sid, t in ms if t[0] == 'flex' and align(t) > align(t[1])][:1] + \
+            [(sid, t) for sid, t in ms if has(t, lambda x: x[0] in ('vec', 'str', 'flex') and x[-1] in ('le::U64', 'be::U64'))][:1] + \
+            [(sid, t) for sid, t in ms if t[0] == 'struct' and is_sized(t) and ssize_of(t) > 4][:1]
     prio = [x for i, x in enumerate(prio) if x not in prio[:i]]
     pick = prio + [x for x in pick if x not in prio][:nshapes - len(prio)]
     for sid, t in pick:
@@ -156,7 +176,10 @@ def stage2(shapes, s1_meta, s1_model, seed, tier='quick'):
         total = len(stream)
         nrecv = len(msgs) + 2
         base = dict(inits=inits, sizes=sizes, stream=stream)
-        for mml in sorted(set([maxlen, maxlen + 3, 2 * maxlen])):
+        # a max_msg_len below MIN_SIZE is raised to MIN_SIZE by the constructors: sized message types work with any
+        from shapes import is_sized
+        small = [0, 1, maxlen // 3] if is_sized(t) else []
+        for mml in sorted(set([maxlen, maxlen + 3, 2 * maxlen] + small)):
             # ---- C07: fault-free chunkings
             scripts = ['-', ','.join(['a1'] * total) or '-']
             for _ in range(2 if tier == 'quick' else 6):
